@@ -131,6 +131,7 @@ pub fn to_config(c: &Cfg) -> HybridConfig {
 impl Prop for C08 {
     type Case = HybCase;
     fn id(&self) -> &'static str { "C08" }
+    fn expected_counters(&self) -> Vec<&'static str> { vec!["probe.non_monotone_lineage", "probe.exclusive_group_lineage", "fault.budget_expired_by_clock_step", "fault.clock_jump_at_reading", "probe.fault_position_changed_result_kind", "fault.compile_deadline", "fault.compile_node_budget", "fault.topk_budget_expired", "probe.pipeline_derived_facts_evaluated"] }
     fn level(&self) -> &'static str { "fault_enumeration" }
     fn budget(&self, tier: Tier) -> Budget { match tier { Tier::Quick => Budget { runs: 12_000, wall_s: 60, recheck: 30 }, Tier::Thorough => Budget { runs: 400_000, wall_s: 1200, recheck: 100 } } }
     fn hash_seed(&self, c: &HybCase) -> u64 { c.hash_seed }
